@@ -28,3 +28,18 @@ void w_ba_clear_all(BA* b) { b->clear_all(); }
 bool w_ba_empty(const BA* b) { return b->empty(); }
 uint64_t w_ba_find_lsb(const BA* b) { return b->find_lsb(); }
 }
+
+// ---- the heap itself (values are their own keys) ----
+struct Ident { K operator()(const K& v) const { return v; } };
+typedef tlx::RadixHeap<K, Ident, K, RADIX> RH;
+extern "C" {
+uint64_t w_rhh_sizeof() { return sizeof(RH); }
+void w_rhh_initialize(RH* h) { h->initialize_(); }
+uint64_t w_rhh_push(RH* h, uint64_t key) { return h->push(static_cast<K>(key)); }
+uint64_t w_rhh_top(RH* h) { return static_cast<uint64_t>(static_cast<int64_t>(h->top())); }
+void w_rhh_pop(RH* h) { h->pop(); }
+uint64_t w_rhh_peak_top_key(const RH* h) { return static_cast<uint64_t>(static_cast<int64_t>(h->peak_top_key())); }
+void w_rhh_clear(RH* h) { h->clear(); }
+uint64_t w_rhh_size(const RH* h) { return h->size(); }
+bool w_rhh_empty(const RH* h) { return h->empty(); }
+}
